@@ -120,8 +120,8 @@ def judge(job):
                 proj = S.project(orig + init_rows, eliminated)
                 if not L.same_row_space(proj, simp_rows + simp_init):
                     viol("initial-system-changed", "DAE + initial equations over %r are not the projection of the original initial system; simplified initial rows %r" % (cs, simp_init))
-    # ---- pointwise at the unique solution
-    for s0, u0 in POINTS:
+    # ---- pointwise at the unique solution (regular systems only)
+    for s0, u0 in POINTS if spec.regular() else ():
         w = spec.solution(s0, u0)
         for desc, row, kind in recs:
             val = sum(c * (w[v] if v != 1 else 1) for v, c in row.items())
@@ -149,9 +149,9 @@ def judge(job):
     return res
 
 
-def plan(tier):
+def plan(tier, anchored=True):
     table = S.option_set_table()
-    pl = S.plan(tier)
+    pl = S.plan(tier) + ([(sp, "core") for sp in S.anchored_specs(tier)] if anchored else [])
     jobs = []
     for sp, name in pl:
         for on, eve in table[name]:
@@ -217,8 +217,8 @@ def robust_map(judge_fn, jobs, chunk=512):
     return res
 
 
-def run_with(ctx, judge_fn, rule_tail):
-    specs, jobs = plan(ctx.tier)
+def run_with(ctx, judge_fn, rule_tail, anchored=True):
+    specs, jobs = plan(ctx.tier, anchored)
     if ctx.seed:
         r = ctx.seed % len(jobs)
         jobs = jobs[r:] + jobs[:r]
@@ -254,6 +254,8 @@ def run_with(ctx, judge_fn, rule_tail):
             "shift / constant forms over the ordered pairs of k = 2 (thorough: 3 with all forms; quick: 3 with the two plain alias forms) "
             "unknowns -- alias cycles with inconsistent signs, mutually defined unknowns -- in source and reversed order. (E) models of (A) "
             "in source order with an initial equation (s = 2 * p; a_n = 7 * s + u): DAE + initial equations are compared as one system. "
+            "(F, C14 only) systems that need not be square: every set of 2..3 plain alias equations tying two unknowns to the state, the "
+            "input or each other with either sign (redundant, contradictory, over-determining), exact comparison only. "
             "'core' = 10 named sets (default, each eliminating pass alone, all-on and its neighbours) on everything else. " % len(S.FORMS) + rule_tail,
         }
     )
